@@ -5,7 +5,7 @@
 # run on it (never in /repo itself). Prints the violated rules per property.
 export GOFLAGS=-mod=mod GOPROXY=off GOSUMDB=off GOTOOLCHAIN=local GOWORK=off
 c=$1; tag=${2:-a5}; name=$c-$tag
-/verif/tools/confirm_seed.sh /tmp/s5-$c $name || exit 1
+/verif/tools/confirm_seed.sh /tmp/s${tag#a}-$c $name || exit 1
 [ -f /verif/seeded/$name/patch.diff ] || exit 1
 wt=/tmp/s5w-$c
 git -C /repo worktree remove --force $wt >/dev/null 2>&1
